@@ -97,6 +97,16 @@ type Entry struct {
 	// when the description uses an operand kind or modifier that is not
 	// modelled.
 	Exec func(st *State, d isaenc.Desc)
+
+	fn func(c *ctx)
+}
+
+// Options select a variant of the reference semantics.
+type Options struct {
+	// UnfusedFMA evaluates every fused multiply-add as round(round(a*b)+c).
+	// This is NOT what the manuals define; the harness uses it to recognise
+	// the known finding "fused multiply-adds are executed unfused".
+	UnfusedFMA bool
 }
 
 var table = map[Key]*Entry{}
@@ -161,7 +171,7 @@ func reg(as archSet, f isaenc.Format, op int, info Info, fn func(c *ctx)) {
 			panic("isaspec: duplicate registration of " + k.String())
 		}
 		arch := a
-		table[k] = &Entry{Key: k, Info: info, Exec: func(st *State, d isaenc.Desc) {
+		table[k] = &Entry{Key: k, Info: info, fn: fn, Exec: func(st *State, d isaenc.Desc) {
 			fn(&ctx{st: st, d: d, arch: arch})
 		}}
 		sameTag[k] = tag
@@ -172,6 +182,11 @@ func reg(as archSet, f isaenc.Format, op int, info Info, fn func(c *ctx)) {
 // instruction is not covered by this transcription. An Unsupported panic of
 // the semantic function is returned as err.
 func Run(a Arch, st *State, d isaenc.Desc) (covered bool, err error) {
+	return RunWith(a, st, d, Options{})
+}
+
+// RunWith is Run with a variant of the semantics.
+func RunWith(a Arch, st *State, d isaenc.Desc, opt Options) (covered bool, err error) {
 	e, ok := Lookup(a, d.Format, d.Opcode)
 	if !ok {
 		return false, nil
@@ -185,6 +200,6 @@ func Run(a Arch, st *State, d isaenc.Desc) (covered bool, err error) {
 			panic(r)
 		}
 	}()
-	e.Exec(st, d)
+	e.fn(&ctx{st: st, d: d, arch: a, opt: opt})
 	return true, nil
 }
